@@ -80,7 +80,7 @@ func Check(v any) error {
 	for i := 0; i < value.NumField(); i++ {
 		sf := value.Type().Field(i)
 
-		if strings.HasPrefix(sf.Tag.Get("api"), "rel,") {
+		if sf.Tag.Get("api") == "rel" || strings.HasPrefix(sf.Tag.Get("api"), "rel,") {
 			s := strings.Split(sf.Tag.Get("api"), ",")
 
 			if len(s) < 2 || len(s) > 3 {
